@@ -3,10 +3,42 @@ import Rbacx.Proofs.EvaluatorsTranslated
 import Rbacx.Run.C03_translated
 import Rbacx.Run.C04_translated
 import Rbacx.Run.C05_translated
+/-!
+  Per-run obligation (C02): the two REFERENCE EVALUATORS AS WHOLES, as they are written NOW.  harness/pytolean_except.py (plugin
+  `extractors/src_translation_evaluators.py`) translates `policy.evaluate` and `policyset._decide_single` / `decide` statement by
+  statement, in exception-passing style, into `Rbacx.Generated.Src.evaluate` / `Src.decide_single` / `Src.decide` — prologue (default
+  algorithm, initial values, `rules` / `policies` not a list), the loops with `break` / `continue` (`PyE.forLoop` on the tuple of the nine
+  carried variables), the head of the rule loop (`rule.get("id")`, the action and resource tests, `try … except ConditionTypeError`
+  around `eval_condition`, the lowered effect), the recursive dispatch of `_decide_single` (a `mutual` block, structural recursion on a
+  budget), finalisations and returned dicts.  The functions they call are the translations the other obligations are about, and their
+  theorems are used here (imported): `Src.match_actions` (C03_translated), `Src.match_resource` / `Src.is_strict` (C05_translated),
+  `Src.eval_condition` with its externals `getattr` = absent, `_parse_dt` = the oracle's, `rel` branch = the model's (C04_translated).
+
+  Proved (nothing of the two functions is hand-modelled):
+
+  * `evaluate_src` — `Src.evaluate … policy env algorithm fuel = (Rbacx.evaluate cx "deny-overrides" policy).map encRaw`: the same dict
+    (five keys, source order) or the same exception (`ConditionTypeError` cannot escape; `AttributeError` of `.lower()` on a non-string
+    algorithm / effect, whatever a condition raises besides ConditionTypeError).  The default algorithm is the LITERAL of the source
+    text.  Hypotheses: `algorithm` is falsy (`None`: how `_decide_single` and the engine call it), the policy, its rules and `env` are
+    dicts (on anything else CPython raises AttributeError at `.get` and the model, whose `get` answers `None`, does not: outside the
+    model's domain, DESIGN §2.1), `policy.size < fuel`.
+  * `decide_single_src`, `decide_src` — what `Src.decide_single` / `Src.decide` return `Represents` (Proofs/RawDict.lean: same answers
+    to `.get` for the six keys; an equality of dicts would be false, the key order depends on the kind of child) what `decideTree cx
+    "deny-overrides" "deny-overrides"` returns for the tree of the document, or they raise the exception the model raises; by
+    induction over the tree (`decide_node`: one set, given its children), `evaluate_src` at the leaves.  Hypotheses: every document
+    of the tree and every rule is a dict (`DictTree`), `env` is a dict, the budget exceeds the size of the document.
+
+  What stays outside: the three externals of `eval_condition`; `match_resource` is the TOTAL translation of C05 (for an
+  `env["resource"]` that is a truthy non-dict CPython raises AttributeError inside it and neither the model nor this translation does).
+-/
 set_option linter.unusedSimpArgs false
 namespace Rbacx.Translated
 open Rbacx Rbacx.Py Rbacx.PyE Rbacx.Generated PyVal
 
+/-! ### `policy.evaluate` -/
+
+/-- the nine Python variables the rule loop of `evaluate` carries, in the order of the generated tuple: reason, last_rule_id,
+    decision, obligations, any_deny, deny_rule_id, any_permit, permit_rule_id, permit_obligations -/
 abbrev St9 := PyVal × PyVal × PyVal × PyVal × PyVal × PyVal × PyVal × PyVal × PyVal
 
 def encSt (s : LoopSt) : St9 :=
@@ -32,6 +64,7 @@ local macro "tail_cases" algo:ident effect:ident : tactic => `(tactic|
      · by_cases h3 : $algo = "deny-overrides" <;> simp [h1, h2, h3, stepRule, ctlOf, encSt, Except.map, PyE.eq_str]
      · by_cases h3 : $algo = "permit-overrides" <;> simp [h1, h2, h3, stepRule, ctlOf, encSt, Except.map, PyE.eq_str]))
 
+/-- **`policy.evaluate` as the source has it now, the whole function** (see the header for the hypotheses) -/
 theorem evaluate_src (cx : CondCtx) (policy algorithm : PyVal) (fuel : Nat)
     (halg : algorithm.truthy = false) (hpol : policy.isDict = true) (henv : cx.env.isDict = true)
     (hrules : ∀ r ∈ rulesOf policy, r.isDict = true) (hfuel : policy.size < fuel) :
@@ -112,10 +145,14 @@ theorem evaluate_src (cx : CondCtx) (policy algorithm : PyVal) (fuel : Nat)
       · simp [h1, encRaw]
       · by_cases h2 : (algo == "permit-overrides") = true <;> simp [h1, h2, encRaw, PyVal.isNone]
 
-end Rbacx.Translated
+/-- off the domain, stated on the source: a policy that is not a dict makes `evaluate` raise AttributeError (at `policy.get`) -/
+theorem evaluate_src_nondict (cx : CondCtx) (policy algorithm : PyVal) (fuel : Nat) (halg : algorithm.truthy = false)
+    (hpol : policy.isDict = false) :
+    Src.evaluate cx.o noAttr (parseDtExt cx.o) (relExt cx) policy cx.env algorithm fuel = .error (.raised "AttributeError") := by
+  unfold Src.evaluate
+  simp only [halg, Bool.false_eq_true, if_false, getE_nondict hpol, bind_error]
 
-namespace Rbacx.Translated
-open Rbacx Rbacx.Py Rbacx.PyE Rbacx.Generated PyVal
+/-! ### `policyset._decide_single` / `decide` -/
 
 /-- the Python variables `p` of `decide`'s child loop (the tuple `PyE.forLoop` carries, in the order of the generated text:
     last_rule_id, first_applicable_result, first_applicable_pid, any_deny, deny_result, deny_pid, any_permit, permit_result,
@@ -143,6 +180,9 @@ local macro "close_step" : tactic => `(tactic|
   (refine ⟨(_, _, _, _, _, _, _, _, _), rfl, ?_⟩
    refine ⟨?_, ?_, ?_, ?_, ?_, ?_⟩ <;> first | rfl | assumption | exact ⟨‹Represents _ _›, rfl⟩))
 
+/-- ONE SET, given its children: when `_decide_single` on every child describes the model's result for the child's tree (or raises
+    what the model raises), `decide` on the set describes the model's result for the set — the child loop is simulated through `StRep`
+    (`forLoop_rel`), the statements after it map related states to a dict that `Represents` `finaliseSet` -/
 theorem decide_node (cx : CondCtx) (n f : Nat) (doc : PyVal) (kids : List PyVal)
     (hdoc : doc.isDict = true)
     (hk : kids = kidsOf doc)
@@ -328,6 +368,7 @@ theorem decide_src (cx : CondCtx) (policyset : PyVal) (fuel : Nat) (henv : cx.en
 end Rbacx.Translated
 
 #print axioms Rbacx.Translated.evaluate_src
+#print axioms Rbacx.Translated.evaluate_src_nondict
 #print axioms Rbacx.Translated.decide_node
 #print axioms Rbacx.Translated.decide_single_src
 #print axioms Rbacx.Translated.decide_src
